@@ -47,6 +47,18 @@ def run_check(pid, tier, root=None, write=True):
         n = argswap_rule(run, funcs)
         run.ok('call sites with a resolved callee in %d anchored functions' % len(funcs), {'call_sites': n})
     run.guarded('ARGSWAP', _argswap)
+    def _mutdefault(run):
+        from .rules.mutdefault import mutdefault_rule
+        run.rule('MUTDEFAULT', 'in every function this property is anchored in, a parameter whose default is a mutable literal is never mutated '
+                 'in place: the default is one object shared by all calls, so a mutation carries state from one call to the next')
+        quals = sorted(set(q for r, qs in prog.consulted.items() if r not in ('ARGSWAP', 'MUTDEFAULT') for q in qs))
+        funcs = []
+        for q in quals:
+            try: funcs.append(prog.func(q))
+            except AnalysisError: pass
+        n = mutdefault_rule(run, funcs)
+        run.ok('mutable defaults in %d anchored functions' % len(funcs), {'parameters': n})
+    run.guarded('MUTDEFAULT', _mutdefault)
     if tier == 'thorough' and root is None:
         # deeper tier: the checker itself is validated by single-instance mutants and behaviour-preserving twins
         from . import selftest
